@@ -677,6 +677,29 @@ def bool_eval(fn, n, env, depth=0):
             if key in env:
                 return env[key] if n["op"] == "==" else (not env[key])
         return None
+    if k == "call" and depth < 3 and n.get("fk") and getattr(fn, "prog", None) is not None and n.get("fk") in fn.prog.functions:
+        # a small predicate helper: a static / free function, or a member called on this same object.  Evaluate its body under env, with the
+        # caller's argument spellings replaced by the helper's parameter names.
+        import re as _re
+        h = fn.prog.functions[n["fk"]]
+        obj = core(n.child("obj")) if "obj" in n else None
+        on_this = obj is None or obj.get("k") == "this"
+        if on_this and h is not fn and not h.is_lambda and len(h.nodes) < 120 and h.blocks:
+            env2 = dict(env)
+            args = [fn.nodes[a] for a in n.get("args", []) if a is not None and a >= 0]
+            for prm, a in zip(h.params, args):
+                ca = canon(a)
+                if prm.get("n") and ca and ca != prm["n"]:
+                    for key in list(env2):
+                        nk = _re.sub(r"(?<![A-Za-z0-9_>.])%s(?![A-Za-z0-9_])" % _re.escape(ca), prm["n"], key)
+                        if nk != key:
+                            env2[nk] = env2[key]
+            got = possible_returns(h, env2, _depth=depth + 1)
+            if got == {True}:
+                return True
+            if got == {False}:
+                return False
+        return None
     if k == "ref" and depth < 4:
         inits, writes = [], 0
         for d in fn.nodes:
@@ -693,7 +716,105 @@ def bool_eval(fn, n, env, depth=0):
 
 
 
-def possible_returns(fn, env, max_states=20000):
+def _edges_under(fn, blk, env, depth=0):
+    """successors of blk that are not refuted by env: a two-way branch whose condition evaluates to a constant takes that edge only; a switch
+    whose subject is fixed by env ((subject == Enumerator) entries) takes the matching case, or the default when every case is refuted."""
+    c = blk.effective_cond()
+    t = blk.term
+    if t is not None and t.get("cls") == "SwitchStmt" and c is not None:
+        cases = t.get("cases", [])
+        subj = canon(c)
+        verdicts = []
+        for si, s_ in enumerate(blk.succs):
+            cs = cases[si] if si < len(cases) else None
+            if isinstance(cs, dict) and "v" in cs:
+                names = [str(cs["v"])] + ([str(cs["cn"]).split("::")[-1]] if cs.get("cn") else [])
+                v = None
+                for nm in names:
+                    for key in ("(%s == %s)" % (subj, nm), "(%s == %s)" % (nm, subj)):
+                        if key in env:
+                            v = env[key]
+                verdicts.append((s_, v, True))
+            else:
+                verdicts.append((s_, None, False))
+        hit = [s_ for s_, v, is_case in verdicts if is_case and v is True]
+        if hit:
+            return hit
+        if all(v is False for s_, v, is_case in verdicts if is_case) and any(is_case for _s, _v, is_case in verdicts):
+            return [s_ for s_, v, is_case in verdicts if not is_case and s_ is not None]
+        return [s_ for s_, v, is_case in verdicts if s_ is not None and v is not False]
+    two = t is not None and c is not None and len(blk.succs) == 2
+    v = bool_eval(fn, c, env, depth) if two else None
+    out = []
+    for si, s_ in enumerate(blk.succs):
+        if s_ is None:
+            continue
+        if two and v is not None and ((si == 0) != v):
+            continue
+        out.append(s_)
+    return out
+
+
+def reach_under(fn, env, dst_pred, avoid_pred, max_states=20000):
+    """Is there a path from the entry to an element satisfying dst_pred that passes no element satisfying avoid_pred, when the atoms in
+    env have the given truth values?  Branches whose condition evaluates to a constant under env (cfg.bool_eval: && || ! == !=, once-
+    initialised bool locals) take that edge only; all others take both.  Returns the list of blocks of a witness path or None."""
+    work = [(fn.entry, (fn.entry,))]
+    seen = set()
+    while work:
+        b, path = work.pop()
+        if b in seen or b is None:
+            continue
+        seen.add(b)
+        if len(seen) > max_states:
+            return list(path)
+        blk = fn.blocks[b]
+        blocked = False
+        for j, e in enumerate(blk.raw_elems):
+            if dst_pred((b, j), e):
+                return list(path)
+            if avoid_pred((b, j), e):
+                blocked = True
+                break
+        if blocked or blk.noreturn:
+            continue
+        if b == fn.exit:
+            if dst_pred((b, 0), "EXIT"):
+                return list(path)
+            continue
+        for s_ in _edges_under(fn, blk, env):
+            work.append((s_, path + (s_,)))
+    return None
+
+
+def returns_under(fn, env, max_states=20000):
+    """the `return` statements reachable from the entry when the atoms in env have the given truth values (see reach_under)."""
+    out = []
+    seen = set()
+    work = [fn.entry]
+    while work:
+        b = work.pop()
+        if b in seen or b is None:
+            continue
+        seen.add(b)
+        if len(seen) > max_states:
+            return [n for n in fn.nodes if n.get("k") == "return"]
+        blk = fn.blocks[b]
+        stop = False
+        for e in blk.raw_elems:
+            n = elem_node(fn, e)
+            if n is not None and n.get("k") == "return":
+                out.append(n)
+                stop = True
+                break
+        if stop or blk.noreturn or b == fn.exit:
+            continue
+        for s_ in _edges_under(fn, blk, env):
+            work.append(s_)
+    return out
+
+
+def possible_returns(fn, env, max_states=20000, _depth=0):
     """{True, False, None} values a bool function can return when the atoms in env have the given truth values: every CFG path whose
     branch conditions are not refuted by env is followed (a condition that evaluates to a constant under env takes that edge only);
     the returned expression is evaluated under env too (None: depends on something outside env).  Form-independent: `if (a) return false;
@@ -714,19 +835,12 @@ def possible_returns(fn, env, max_states=20000):
         for e in blk.raw_elems:
             n = elem_node(fn, e)
             if n is not None and n.get("k") == "return":
-                out.add(bool_eval(fn, n.child("e"), env) if "e" in n else None)
+                out.add(bool_eval(fn, n.child("e"), env, _depth) if "e" in n else None)
                 stop = True
                 break
         if stop or blk.noreturn or b == fn.exit:
             continue
-        c = blk.effective_cond()
-        two = blk.term is not None and c is not None and len(blk.succs) == 2
-        v = bool_eval(fn, c, env) if two else None
-        for si, s_ in enumerate(blk.succs):
-            if s_ is None:
-                continue
-            if two and v is not None and ((si == 0) != v):
-                continue
+        for s_ in _edges_under(fn, blk, env, _depth):
             work.append(s_)
     return out
 
